@@ -61,6 +61,39 @@ def check(ctx):
     params = set(ct.positional_params[1:])
     bparam, cparam = ct.positional_params[1], ct.positional_params[2]
 
+    # ---------------------------------------------------------------- C18.0 every include implementation merges deeply
+    # (a sibling of IncludeField -- a field that includes several files -- combines parsed trees with combine_trees as well: a
+    # parsed document handed to dict.update / {**a, **b} / a | b replaces nested maps wholesale)
+    mixin = model.cls("IncludeFieldMixin")
+    for c_ in mixin.subclasses(strict=True):
+        f_ = c_.methods.get("include")
+        if f_ is None:
+            continue
+        gi = an.cfg(f_)
+
+        def parsed(e, at, f_=f_, gi=gi):
+            """the value can be the tree a formatter parsed from an included file"""
+            for k_, p_ in (value_sources(f_, e, at) if isinstance(e, ast.Name) else [("expr", e)]):
+                if k_ == "expr" and isinstance(p_, ast.Call) and isinstance(p_.func, ast.Attribute) and p_.func.attr in ("loads", "load"):
+                    return True
+            return False
+        for n_ in gi.nodes:
+            if n_.kind == "call" and isinstance(n_.ast.func, ast.Attribute) and n_.ast.func.attr == "update" and n_.ast.args \
+                    and any(parsed(a_, n_) for a_ in n_.ast.args):
+                ctx.ob("merge.only-deep", f_, n_.ast, False,
+                       "%s merges the tree of an included file with dict.update: nested maps of files listed together replace each other "
+                       "instead of merging" % f_.qualname, node=n_)
+        for x_ in ast.walk(f_.node):
+            shallow = None
+            if isinstance(x_, ast.Dict) and any(k_ is None for k_ in x_.keys):
+                shallow = [v_ for k_, v_ in zip(x_.keys, x_.values) if k_ is None]
+            elif isinstance(x_, ast.BinOp) and isinstance(x_.op, ast.BitOr):
+                shallow = [x_.left, x_.right]
+            if shallow and any(parsed(v_, None) for v_ in shallow):
+                ctx.ob("merge.only-deep", f_, x_, False,
+                       "%s merges the tree of an included file shallowly (%s)" % (f_.qualname, ast.unparse(x_)[:40]), node=x_)
+        ctx.ob("merge.only-deep", f_, "trees of included files", True, "no shallow merge of a parsed tree", nontrivial=False)
+
     # ---------------------------------------------------------------- C18.1 purity
     def fresh_receiver(e, node, depth=0):
         """is the object written through *e* provably allocated inside this call?"""
